@@ -1065,6 +1065,95 @@ fn cmd_replay(a: &[String]) -> i32 {
     if res.violations.is_empty() { 0 } else { 1 }
 }
 
+/// `simb refonly <scenario>`: ONLY the single-threaded reference pass, in this (fresh) process.
+/// Prints a text record that `simb rawrun` of ANOTHER fresh process reads back:
+///   REF <thread> <op> <digest hex> <P|-> <panic message>
+///   CONS <table> <30 counts>
+///   STEPS <max_steps>
+fn cmd_refonly(a: &[String]) -> i32 {
+    if a.len() != 1 {
+        eprintln!("HARNESS-ERROR: usage: simb refonly <scenario>");
+        return 2;
+    }
+    let sc = match decode(&a[0]) { Ok(s) => Arc::new(s), Err(e) => { eprintln!("HARNESS-ERROR: {}", e); return 2; } };
+    if let Err(e) = reference_pass(&sc) {
+        eprintln!("HARNESS-ERROR: {}", e);
+        return 2;
+    }
+    ENGINE.with(|e| {
+        let e = e.borrow();
+        for (ti, t) in e.reference.iter().enumerate() {
+            for (oi, o) in t.iter().enumerate() {
+                match &o.panic {
+                    Some(m) => println!("REF {} {} {:016x} P {}", ti, oi, o.digest, m.replace('\n', " ")),
+                    None => println!("REF {} {} {:016x} - ", ti, oi, o.digest),
+                }
+            }
+        }
+        for tb in 0..2 {
+            println!("CONS {} {}", tb, e.ref_constructed[tb].iter().map(|x| x.to_string()).collect::<Vec<_>>().join(" "));
+        }
+        println!("STEPS {}", e.max_steps);
+    });
+    0
+}
+
+/// `simb rawrun <scenario> <schedule> <reference file>`: ONLY the raced execution, as the very
+/// first thing this (fresh) process does with the library; the reference comes from the file
+/// written by `simb refonly` in another process.  This is how a violation found in a batch is
+/// confirmed: nothing that ran earlier in the process (reference pass, previous executions,
+/// `verif_reset`) can have left state behind, so what is observed is what a real program that
+/// races on its very first use of the library would observe.
+fn cmd_rawrun(a: &[String]) -> i32 {
+    if a.len() != 3 {
+        eprintln!("HARNESS-ERROR: usage: simb rawrun <scenario> <schedule csv|@file|-> <reference file>");
+        return 2;
+    }
+    let sc = match decode(&a[0]) { Ok(s) => s, Err(e) => { eprintln!("HARNESS-ERROR: {}", e); return 2; } };
+    let list = match parse_schedule(&a[1]) { Ok(l) => l, Err(e) => { eprintln!("HARNESS-ERROR: {}", e); return 2; } };
+    let txt = match std::fs::read_to_string(&a[2]) { Ok(t) => t, Err(e) => { eprintln!("HARNESS-ERROR: cannot read {}: {}", a[2], e); return 2; } };
+    let mut reference: Vec<Vec<Outcome>> = sc.threads.iter().map(|t| vec![Outcome { digest: 0, ptr: 0, panic: None }; t.ops.len()]).collect();
+    let mut cons = [[0u32; N_SLOTS]; 2];
+    let mut max_steps = MAX_STEPS;
+    for l in txt.lines() {
+        let p: Vec<&str> = l.splitn(6, ' ').collect();
+        match p[0] {
+            "REF" if p.len() >= 5 => {
+                let (ti, oi): (usize, usize) = (p[1].parse().unwrap_or(99), p[2].parse().unwrap_or(99));
+                if ti < reference.len() && oi < reference[ti].len() {
+                    reference[ti][oi].digest = u64::from_str_radix(p[3], 16).unwrap_or(0);
+                    if p[4] == "P" {
+                        reference[ti][oi].panic = Some(p.get(5).unwrap_or(&"").to_string());
+                    }
+                }
+            }
+            "CONS" => {
+                let v: Vec<&str> = l.split(' ').collect();
+                let tb: usize = v[1].parse().unwrap_or(9);
+                if tb < 2 {
+                    for d in 0..N_SLOTS.min(v.len().saturating_sub(2)) {
+                        cons[tb][d] = v[2 + d].parse().unwrap_or(0);
+                    }
+                }
+            }
+            "STEPS" => max_steps = p[1].parse().unwrap_or(MAX_STEPS),
+            _ => {}
+        }
+    }
+    ENGINE.with(|e| {
+        let mut e = e.borrow_mut();
+        e.reference = reference;
+        e.ref_constructed = cons;
+        e.max_steps = max_steps;
+    });
+    let sc_txt = encode(&sc);
+    let sc = Arc::new(sc);
+    let pol = Policy::Replay(list);
+    let res = run_one(&sc, pol.clone(), 0, 40);
+    println!("{}", finding_json(&sc_txt, &sc, 0, 0, 0, 0, &pol, &res));
+    if res.violations.is_empty() { 0 } else { 1 }
+}
+
 /// `simb search <scenario> <seed> <n> <class|any>`: seeded search over schedules of one scenario.
 fn cmd_search(a: &[String]) -> i32 {
     if a.len() != 4 && a.len() != 5 {
@@ -1153,9 +1242,18 @@ fn cmd_seamcheck() -> i32 {
             list.push(Arc::new(generate(derive_seed(0x5eac, ENGINE_TAG, 100 + i), Profile::Full)));
         }
         let mut first: Vec<(u64, u64, usize, [[u32; N_SLOTS]; 2], usize)> = Vec::new();
-        for round in 0..2 {
-            for (i, sc) in list.iter().enumerate() {
-                if reference_pass(sc).is_err() {
+        // order: X0 X0 X1 X1 ... (a scenario right after itself sees whatever it left behind for
+        // its own depths), then X0 X1 ... again (sees what the others left behind)
+        let mut order: Vec<(usize, usize)> = Vec::new();
+        for i in 0..list.len() { order.push((0, i)); order.push((1, i)); }
+        for i in 0..list.len() { order.push((1, i)); }
+        let mut skipped = vec![false; list.len()];
+        for (round, i) in order {
+            {
+                let sc = &list[i];
+                if skipped[i] || reference_pass(sc).is_err() {
+                    skipped[i] = true;
+                    if round == 0 { first.push((0, 0, 0, [[0; N_SLOTS]; 2], 0)); }
                     continue;
                 }
                 let res = run_one(sc, Policy::Sticky { stay: 10 }, 77 + i as u64, 40);
@@ -1219,6 +1317,8 @@ fn main() {
         "search" => cmd_search(&args[2..]),
         "merge" => cmd_merge(&args[2..]),
         "seamcheck" => cmd_seamcheck(),
+        "refonly" => cmd_refonly(&args[2..]),
+        "rawrun" => cmd_rawrun(&args[2..]),
         _ => {
             eprintln!("HARNESS-ERROR: unknown sub-command");
             2
